@@ -24,6 +24,13 @@ DW_PROGRAMS = ["entry ?root", "entry (offset < 0x60) parent", "entry ?root child
                "entry (pos < 3) @AT_name", "symbol (pos < 4) name", "entry (pos < 5) [attribute] length"]
 
 
+# programs on input stacks that hold a DIE -- one that was reached through an import (its value shares the import
+# chain with every copy of it), a raw one, a unit root: navigation and comparison words, several uses of the DIE
+DIE_PROGRAMS = ["root offset", "[parent* offset]", "(|A| [A parent* offset], A root offset, [A parent* offset])", "(|A| A root, A parent, A)",
+                "dup root ?ne drop [parent offset]", "(|A| A A root (?eq 1 || 0), A A ?eq 2)", "[child offset] length", "unit offset",
+                "(|A| [A parent+] length, A root ?root offset)", "?(root) parent offset", "[root child (pos < 3) parent offset]"]
+
+
 def sched_str(h, ninputs):
     return ",".join(("%s%d:%d" % (op, s - 1, (i - 1) % ninputs)) if op == "e" else "%s%d" % (op, s - 1)
                     for op, s, i in h)
@@ -260,7 +267,9 @@ def run(tier):
     drv = os.path.join(bdir, "bin", "zwdrv")
     tests = os.path.join(common.REPO, "tests")
     dwinputs = ['"%s/twocus" dwopen' % tests, '"%s/dwz-partial" dwopen' % tests, '"%s/a1.out" dwopen' % tests]
-    jobs = [(p, INPUTS) for p in PROGRAMS] + [(p, dwinputs) for p in DW_PROGRAMS]
+    dieinputs = ['"%s/dwz-partial" dwopen entry (pos == 1)' % tests, '"%s/dwz-partial" dwopen entry (pos == 12)' % tests,
+                 '"%s/a1.out" dwopen entry (pos == 3)' % tests]
+    jobs = [(p, INPUTS) for p in PROGRAMS] + [(p, dwinputs) for p in DW_PROGRAMS] + [(p, dieinputs) for p in DIE_PROGRAMS]
     # fresh runs
     fcmds, fkey = [], []
     for p, inputs in jobs:
